@@ -15,7 +15,11 @@ thread_local! {
     static PEAK: Cell<usize> = const { Cell::new(0) };
     static ARMED: Cell<bool> = const { Cell::new(false) };
     static PANIC_AT: RefCell<Option<String>> = const { RefCell::new(None) };
+    static IN_GUARDED: Cell<bool> = const { Cell::new(false) };
 }
+
+/// panics that happened on threads the harness does not guard (threads spawned by the library)
+pub static FOREIGN_PANICS: std::sync::Mutex<Vec<String>> = std::sync::Mutex::new(Vec::new());
 
 unsafe impl GlobalAlloc for Meter {
     unsafe fn alloc(&self, l: Layout) -> *mut u8 {
@@ -79,6 +83,12 @@ pub fn install_panic_hook() {
             .location()
             .map(|l| format!("{}:{}", l.file(), l.line()))
             .unwrap_or_else(|| "?".into());
+        let guarded_here = IN_GUARDED.try_with(|g| g.get()).unwrap_or(false);
+        if !guarded_here {
+            if let Ok(mut v) = FOREIGN_PANICS.lock() {
+                v.push(at.rsplit("/repo/").next().unwrap_or(&at).to_string());
+            }
+        }
         let _ = PANIC_AT.try_with(|p| *p.borrow_mut() = Some(at));
     }));
 }
@@ -88,7 +98,10 @@ pub fn guarded<R>(f: impl FnOnce() -> R) -> Result<R, String> {
     ARMED.with(|a| {
         let _ = a;
     });
-    match catch_unwind(AssertUnwindSafe(f)) {
+    let was = IN_GUARDED.with(|g| g.replace(true));
+    let res = catch_unwind(AssertUnwindSafe(f));
+    IN_GUARDED.with(|g| g.set(was));
+    match res {
         Ok(r) => Ok(r),
         Err(_) => {
             ARMED.with(|a| a.set(false));
